@@ -65,6 +65,75 @@ func probe(f []string) string {
 		return ""
 	}
 	switch f[0] {
+	case "semver.api":
+		// semver.api <Sys> <constraint> <version> <Sys2> <version2>: the rest of util/semver's
+		// exported API (accessors, printers, Set methods, cross-system Compare, MinVersion) on
+		// whatever the parsers return
+		sys, ok := semverops.SysNames[arg(1)]
+		sys2, ok2 := semverops.SysNames[arg(4)]
+		if !ok || !ok2 {
+			return "bad-op"
+		}
+		v, verr := sys.Parse(arg(3))
+		w, werr := sys2.Parse(arg(5))
+		for _, parse := range []func(string) (*semver.Constraint, error){sys.ParseConstraint, sys.ParseSetConstraint} {
+			c, err := parse(arg(2))
+			if err != nil {
+				continue
+			}
+			_ = c.String()
+			c.IsSimple()
+			c.HasPrerelease()
+			c.Match(arg(3))
+			set := c.Set()
+			_ = set.String()
+			set.Empty()
+			set.Match(arg(3))
+			if verr == nil {
+				c.MatchVersion(v)
+				c.MatchVersionPrerelease(v)
+				set.MatchVersion(v)
+			}
+			if c2, err := sys.ParseConstraint(arg(5)); err == nil {
+				t := c2.Set()
+				u := c.Set()
+				u.Union(t)
+				_ = u.String()
+				u.Empty()
+				i := c.Set()
+				i.Intersect(t)
+				_ = i.String()
+				i.Empty()
+				if verr == nil {
+					u.MatchVersion(v)
+					i.MatchVersion(v)
+				}
+				(&semver.Constraint{}).Set()
+			}
+		}
+		if verr == nil {
+			_ = v.String()
+			v.Canon(true)
+			v.Canon(false)
+			v.IsWildcard()
+			v.IsPrerelease()
+			v.IsBuild()
+			v.Prerelease()
+			v.Epoch()
+			v.Major()
+			sys.MinVersion(v)
+			v.Compare(v)
+			v.Difference(v)
+			if werr == nil {
+				v.Compare(w)
+				w.Compare(v)
+				if sys == sys2 {
+					v.Difference(w)
+				}
+			}
+		}
+		sys.Compare(arg(3), arg(5))
+		sys.Difference(arg(3), arg(5))
 	case "pypi.ParseDependency":
 		pypi.ParseDependency(arg(1))
 	case "pypi.ParseMetadata":
@@ -339,6 +408,25 @@ func run(c *fw.Ctx) {
 		one(fmt.Sprintf("C04 cparse %s %s", sys, fw.Hx(strings.Repeat("[", 500)+"1"+strings.Repeat("]", 500))))
 	}
 	// 2. entry points outside the Lean model (Go-only probes)
+	for i, n := 0, c.N(3000, 60000); i < n; i++ {
+		sys := semverops.Systems[c.Rng.Intn(len(semverops.Systems))]
+		sys2 := sys
+		if c.Rng.Intn(6) == 0 {
+			sys2 = semverops.Systems[c.Rng.Intn(len(semverops.Systems))]
+		}
+		cs := semverops.GenConstraint(c.Rng, sys)
+		if c.Rng.Intn(4) == 0 {
+			cs = semverops.Pick(c.Rng, ">2 <1", "<0", "<0.0.0-0", "(1.0,1.0)", ">=1,<1", "{}", "{<empty>}", "!=1,==1", "", "1 - 0", ">1 <=1", "[2,1]", "~>0 <0")
+		}
+		if c.Rng.Intn(5) == 0 {
+			cs = semverops.Mutate(c.Rng, cs)
+		}
+		v := semverops.GenVersion(c.Rng, sys)
+		if c.Rng.Intn(3) == 0 {
+			v = semverops.GenCVersion(c.Rng, sys)
+		}
+		one(fmt.Sprintf("C04 probe semver.api %s %s %s %s %s", fw.Hx(sys.String()), fw.Hx(cs), fw.Hx(v), fw.Hx(sys2.String()), fw.Hx(semverops.GenVersion(c.Rng, sys2))))
+	}
 	m := c.N(1500, 40000)
 	for i := 0; i < m; i++ {
 		dep := semverops.Pick(c.Rng, "name", "Name_x", "a.b-c", "") + semverops.Pick(c.Rng, "", "[x]", "[x, y]", "[", "[]") +
